@@ -50,7 +50,7 @@ def find_desc(bpj, needle):
     return [i for i, e in enumerate(bpexport.entities_of(bpj)) if needle in (e.get("player_description") or "")]
 
 
-def case_for(cid, decls, bpj, ideal=None, entities=None, c20=False, mems=None, harvest=None, parts=None):
+def case_for(cid, decls, bpj, ideal=None, entities=None, c20=False, mems=None, harvest=None, embed_parts=None):
     """returns (defs text, expr text, meta) or raises bpexport.Unsupported.
     ideal: harvested logical edges -> check the idealised private-network circuit instead"""
     names = [d[1] for d in decls]
@@ -268,15 +268,15 @@ def case_for(cid, decls, bpj, ideal=None, entities=None, c20=False, mems=None, h
         meta["latches"] = len(latches)
         meta["rings"] = [len(r_[0]) for r_ in rings]
         meta["latch_defs"] = latches
-    if parts and ideal is None:
+    if embed_parts and ideal is None:
         # C12: each independent part is embedded in the compiled program along its position list
         # (Proofs/EmbedProofs.v, embeds_sound / embedded_values)
-        for k_, (pdecls, rho) in enumerate(parts):
+        for k_, (pdecls, rho) in enumerate(embed_parts):
             ptext = fa.coq_decls(pdecls, ex.sig, input_vars, exposed)
             defs += f"Definition part_{cid}_{k_} : list decl :=\n  {ptext}.\n"
             emb = f"embeds part_{cid}_{k_} ds_{cid} [{'; '.join(str(x) + '%nat' for x in rho)}]"
             meta["embed_expr"] = (meta.get("embed_expr") + " && " + emb) if meta.get("embed_expr") else emb
-        meta["embedded_parts"] = len(parts)
+        meta["embedded_parts"] = len(embed_parts)
     if ideal is None:
         # the net ids of the term are re-derived from the blueprint's wires inside Coq (Factorio/Nets.v)
         cdefs, cexpr = bpexport.net_certificate(bpj, cid)
